@@ -26,10 +26,10 @@ META = {
     "timeout": {"quick": 240, "thorough": 900}, "parts": {"quick": 16, "thorough": 16}},
   "h_gfa2_groups": {"kind": "G", "functions": _FUNCS,
     "bounds": "GFA2 document S,S,E,O,U (5 lines) quick / S,S,E,G,O,U (6 lines) thorough: all arrival orders x 2 orientations x E interval kind (dovetail/containment/internal), plus the document S,S,G,O,U whose groups list the gap",
-    "timeout": {"quick": 240, "thorough": 1200}, "parts": {"quick": 12, "thorough": 16}},
+    "timeout": {"quick": 240, "thorough": 900}, "parts": {"quick": 12, "thorough": 16}},
   "h_gfa2_nested": {"kind": "G", "functions": _FUNCS,
     "bounds": "GFA2 document S,S,E,O(o1),O(o2 -> o1-),U(u1 -> o2,u2),U(u2 -> s1) restricted to 5 (quick: S,E,O,O,U) / 6 lines (thorough: S,S,E,O,O,U): all arrival orders",
-    "timeout": {"quick": 240, "thorough": 1200}, "parts": {"quick": 12, "thorough": 16}},
+    "timeout": {"quick": 240, "thorough": 900}, "parts": {"quick": 12, "thorough": 16}},
  },
 }
 
